@@ -54,7 +54,7 @@ def main():
     ap.add_argument("--props", default="")
     ap.add_argument("prefix", nargs="*")
     a = ap.parse_args()
-    ids = sorted(os.listdir(os.path.join(VERIF, "seeded")))
+    ids = sorted(d for d in os.listdir(os.path.join(VERIF, "seeded")) if os.path.isdir(os.path.join(VERIF, "seeded", d)))
     if a.prefix:
         ids = [i for i in ids if any(i.startswith(p) for p in a.prefix)]
     base = tempfile.mkdtemp(prefix="hxseed_")
